@@ -476,11 +476,12 @@ fn gen_method(ctx: &mut Ctx) -> DeviceRetrievalMethod {
         0 => DeviceRetrievalMethod::BLE(gen_ble(ctx)),
         1 => {
             let v = gen_nfc_cbor(ctx);
-            DeviceRetrievalMethod::NFC(from_slice::<NfcOptions>(&enc(&v)).expect("valid NfcOptions"))
+            // a refusal of this valid encoding is reported by the hand-rolled stream (with the spec); here: fall back
+            match from_slice::<NfcOptions>(&enc(&v)) { Ok(o) => DeviceRetrievalMethod::NFC(o), Err(_) => { ctx.count("generator:valid NfcOptions refused"); DeviceRetrievalMethod::BLE(gen_ble(ctx)) } }
         }
         _ => {
             let v = gen_wifi_cbor(ctx);
-            DeviceRetrievalMethod::WIFI(from_slice::<WifiOptions>(&enc(&v)).expect("valid WifiOptions"))
+            match from_slice::<WifiOptions>(&enc(&v)) { Ok(o) => DeviceRetrievalMethod::WIFI(o), Err(_) => { ctx.count("generator:valid WifiOptions refused"); DeviceRetrievalMethod::BLE(gen_ble(ctx)) } }
         }
     }
 }
@@ -495,7 +496,7 @@ fn gen_engagement(ctx: &mut Ctx, protocol_info: bool) -> DeviceEngagement {
     };
     let server_retrieval_methods = if ctx.rng.gen_bool(0.4) {
         let v = gen_server_cbor(ctx);
-        Some(from_slice::<ServerRetrievalMethods>(&enc(&v)).expect("valid ServerRetrievalMethods"))
+        match from_slice::<ServerRetrievalMethods>(&enc(&v)) { Ok(o) => Some(o), Err(_) => { ctx.count("generator:valid ServerRetrievalMethods refused"); None } }
     } else {
         None
     };
